@@ -20,6 +20,7 @@ def run(chk, F):
     chk.guard("conformance-gate", "to_list", lambda: c02.to_list_gates(chk, F))
     chk.guard("remainder-threading", "to_list", lambda: threading(chk, F))
     chk.guard("positional-pairing", "to_list", lambda: pairing(chk, F))
+    chk.guard("positive-units", "to_list", lambda: positive_units(chk, F))
     chk.guard("div_rem-shape", "Numeric::div_rem", lambda: div_rem(chk, F))
     chk.guard("exactness", "to_list", lambda: exact(chk, F))
     chk.guard("duration-breakdown", "eval_query", lambda: duration(chk, F))
@@ -64,6 +65,32 @@ def pairing(chk, F):
     ok = len(enums) == 1 and "skip" not in ap_str(fn.apath(enums[0][1]["args"][0])) and "IntoIterator>::into_iter(" in ap_str(fn.apath(enums[0][1]["args"][0]))
     chk.decide(ok, "positional-pairing", fk, "loop-over-all-units", fn.where(enums[0][0]) if enums else fn.where(),
                "the decomposition loop enumerates the resolved units from the first", "the decomposition loop does not enumerate the resolved units themselves")
+
+
+def positive_units(chk, F):
+    """All parts share the value's sign only if every list unit is positive: the decomposition runs behind the refusing edge
+    of `unit.value < 0` (zero is refused by the divisor gate)."""
+    fn = F.find(CORE, "runtime::eval::to_list")
+    fk = "rink_core::runtime::eval::to_list"
+    drs = [bb for bb, t in fn.calls() if "callee" in t and t["callee"]["path"].endswith("types::numeric::Numeric::div_rem")]
+    if len(drs) != 1:
+        raise AnchorLost("to_list: div_rem call not found")
+
+    def acc(kind, ap, info):
+        if kind != "bool":
+            return None
+        r = ap[0]
+        if r[0] == "call" and r[1].startswith("<types::numeric::Numeric as core::cmp::PartialOrd>::") and len(r[2]) == 2:
+            op = r[1].split("::")[-1]
+            a, b = ap_str(r[2][0]), ap_str(r[2][1])
+            if a.endswith(".value") and b == "types::numeric::Numeric::zero()":
+                return {"lt": {"false"}, "le": {"false"}, "gt": {"true"}, "ge": {"true"}}.get(op)
+            if b.endswith(".value") and a == "types::numeric::Numeric::zero()":
+                return {"gt": {"false"}, "ge": {"false"}, "lt": {"true"}, "le": {"true"}}.get(op)
+        return None
+    k2.gate_rule(chk, fn, "positive-units", fk, "negative-units-refused", drs, acc,
+                 "the value is decomposed only with list units that passed a sign test",
+                 "to_list accepts a negative-valued list unit (`10 K -> delisle_absolute;K`): the parts do not share the value's sign")
 
 
 def threading(chk, F):
@@ -181,6 +208,23 @@ def div_rem(chk, F):
                 "as Rational.1" in ap_str(other) and "as Rational.0" in ap_str(minuend)
     chk.decide(okr, "div_rem-shape", fk, "remainder-is-left-minus-right-times-quotient", fn.where(subs[0][0]) if subs else fn.where(),
                "remainder = left - right * quotient", "the remainder is not computed as left - right * quotient")
+    # float arm (a list unit can be a float, e.g. `semitone`): the quotient is truncated and the remainder is left - right * quotient
+    fl = [(bb, t) for bb, t in fn.calls() if "callee" in t and any(d[0] == "variant" and d[3] == "Float" for d in (fn.guard_desc(g) for g in fn.guards_of(bb)))]
+    truncs = [t for bb, t in fl if t["callee"]["path"].endswith(("f64>::trunc", "::trunc"))]
+    trunc_ok = False
+    for t in truncs:
+        a = fn.apath(t["args"][0])
+        trunc_ok = trunc_ok or (a[0][0] == "binop" and a[0][1] == "Div" and "as Float.0" in ap_str(a[0][2]) and "as Float.1" in ap_str(a[0][3]))
+    rem_ok = False
+    for i, j, st in fn.stmts():
+        rv = st.get("rv", {})
+        if st["k"] == "assign" and rv.get("k") == "binop" and rv.get("op") == "Sub" and rv.get("aty") == "f64":
+            a, b = fn.apath(rv["a"]), fn.apath(rv["b"])
+            rem_ok = rem_ok or ("as Float.0" in ap_str(a) and b[0][0] == "binop" and b[0][1] == "Mul" and "trunc(" in ap_str(b) and "as Float.1" in ap_str(b))
+    chk.decide(trunc_ok and rem_ok, "div_rem-shape", fk, "float-arm-truncates", fn.where(),
+               "on floats the quotient is trunc(left / right) and the remainder left - right * quotient",
+               "div_rem's float arm does not return a truncated quotient with the matching remainder (a float-valued list unit such as `semitone` "
+               "then gets a fractional part and the parts sum to more than the value)")
     # the tuple returned in the rational arm is (quotient as rational, remainder)
     # float arm exists only behind Parity::Float
     import k4 as _k4
